@@ -209,7 +209,7 @@ def run(ctx, C07):
     rng = ctx.rng
     quick = ctx.tier == "quick"
     sources = [("fixed-snake", snake_registry(U.fixed_registry()))]
-    for i in range(ctx.n(1, 4)):
+    for i in range(ctx.n(1, 3)):
         sources.append(("rnd-snake%d" % i, snake_registry(U.gen_registry(rng))))
     plans = [["hide-fields"], ["camel"], ["setter"], ["camel", "hide-fields"], ["hide-fields", "setter"], ["hide-type"], ["clone", "hide-fields"],
              ["hide-fields", "hide-fields"]]
@@ -223,11 +223,11 @@ def run(ctx, C07):
             + [N(n) for n in names if U.reg_get(reg, n)["kind"] == "enum"]
         # (1) the source schema is built and USED: every input type coerces values, fields resolve
         res = C07.run_registry(ctx, reg, "hist:%s" % sid, types, per_type=4 if quick else 8, depth=2,
-                               max_cases=120 if quick else 600, n_abstract=0, n_trace=0, leaf_defaults_only=True)
+                               max_cases=120 if quick else 400, n_abstract=0, n_trace=0, leaf_defaults_only=True)
         if res is None:
             continue
         world, specs = res
-        chosen = rng.sample(plans, 3 if quick else len(plans))
+        chosen = rng.sample(plans, 3 if quick else 5)
         for steps in chosen:
             if ctx.out_of_time():
                 break
@@ -265,7 +265,7 @@ def run(ctx, C07):
                 prim = [a for a in sp if a["name"] == "x"]
                 if prim and (U.ty_base(prim[0]["type"]) in in_names or rng.random() < 0.3):
                     groups += C07.groups_for_arg(dreg, si, prim[0], rng, 4 if quick else 8, 2, value_regs=(reg,))
-            groups = C07.select_groups(groups, rng, 150 if quick else 700)
+            groups = C07.select_groups(groups, rng, 150 if quick else 400)
             # (3) the derived schema is checked against ITS OWN declaration; values of the source schema are in the stream
             C07.run_world(ctx, dworld, dreg, "hist:%s:%s" % (sid, label), dtypes, dspecs, groups, 4 if quick else 8, 2, 0,
                           value_regs=(reg,), extras=False)
